@@ -16,12 +16,12 @@ class StaticObligation:
 def _gen_worker(job):
     """Generate the obligations of one contract in a worker process (z3 terms are not picklable:
     the SMT-LIB text is what travels)."""
-    name, repo = job
+    name, repo, case_index = job
     import hashlib
     from props import ALL_CONTRACTS, build_registry
     reg = build_registry()
     try:
-        rep = verify(ALL_CONTRACTS[name], reg, repo)
+        rep = verify(ALL_CONTRACTS[name], reg, repo, case_index)
     except Exception as e:          # a crash of the generator is never a verdict about the code
         import traceback
         from .contract import FunctionReport
@@ -50,7 +50,17 @@ def prove(contracts, registry, repo=None, timeout_ms=20000, statics=(), cvc5_all
     import multiprocessing as mp
     from .solve import discharge_texts
     t0 = time.time()
-    jobs = [(c.name, repo) for c in contracts]
+    # one generation job per (function, input-kind case): cases are independent symbolic executions
+    jobs = []
+    for c in contracts:
+        try:
+            ncases = sum(1 for _ in c.cases())
+        except Exception:
+            ncases = 0
+        if ncases <= 1:
+            jobs.append((c.name, repo, None))
+        else:
+            jobs.extend((c.name, repo, k) for k in range(ncases))
     reports, items = [], []
     for fn in lemmas:
         for ob in fn():
@@ -59,10 +69,23 @@ def prove(contracts, registry, repo=None, timeout_ms=20000, statics=(), cvc5_all
                               smt2=text, note=ob.note))
     if jobs:
         with mp.get_context("fork").Pool(min(16, len(jobs))) as pool:
+            merged = {}
             for summary, its, used in pool.map(_gen_worker, jobs):
-                reports.append(Report(summary))
                 items.extend(its)
                 registry.used.update(used)
+                m = merged.get(summary["name"])
+                if m is None:
+                    merged[summary["name"]] = summary
+                else:
+                    for k in ("paths", "cases", "n_obligations"):
+                        m[k] += summary[k]
+                    m["gen_s"] = round(max(m["gen_s"], summary["gen_s"]), 3)
+                    if summary["status"] != "ok" and m["status"] == "ok":
+                        m["status"], m["reason"] = summary["status"], summary["reason"]
+                    m["source_hash"] = m["source_hash"] or summary["source_hash"]
+            for c in contracts:
+                if c.name in merged:
+                    reports.append(Report(merged[c.name]))
     results = discharge_texts(items, timeout_ms=timeout_ms, cvc5_all=cvc5_all) if items else []
     # vacuity queries: `False` must not be provable; they are not counted as obligations
     kept = []
